@@ -2,8 +2,8 @@
    (__getstate__/__setstate__) and TransferManager.read_cache (state repair + re-registration through add()).
    The repair of an INITIALIZING transfer calls the real state method queue(): modelled with C03's
    effect semantics over SlskGen.TransGen.trans (regenerated from transfer/state.py). *)
-From Coq Require Import ZArith NArith List Bool.
-From SlskGen Require Import TransGen.
+From Coq Require Import ZArith NArith List Bool String.
+From SlskGen Require Import TransGen TransferGen.
 From Slsk Require Import C03.Spec C03.Model.
 Import ListNotations.
 
@@ -83,18 +83,45 @@ Definition queue_call : call := mkCall OQueue None false.    (* `await transfer.
 
 Definition opt_N_eqb (a : option N) (b : N) : bool := match a with Some x => N.eqb x b | None => false end.
 
+(* read_cache is regenerated as constants (the repair_ constants of SlskGen.TransferGen): whether the remote-queue mark is cleared,
+   which persisted state is re-run through which state method, what a transferring transfer becomes, which helper
+   methods are applied to it, whether the transfer is registered through add() *)
+Fixpoint rule_for (s : st) (l : list (st * op)) : option op :=
+  match l with
+  | [] => None
+  | (s', o) :: r => if st_beq s s' then Some o else rule_for s r
+  end.
+Definition apply_methods (ms : list (list fstep)) (t : transfer) : transfer := fold_left (fun t m => run_fields m t) ms t.
+
 Definition repair (m : mt) : mt :=
-  let m1 := upd_rq m false in
-  match m_state m1 with
-  | INITIALIZING =>
-      from_c03 m1 (fst (fst (step_seq (to_c03 m1) queue_call)))
-  | DOWNLOADING | UPLOADING =>
-      upd_times (upd_state m1 (if opt_N_eqb (m_filesize m1) (m_bytes m1) then COMPLETE else INCOMPLETE)) None None
-  | _ => m1
+  let m1 := if repair_rq_cleared then upd_rq m false else m in
+  match rule_for (m_state m1) repair_state_rules with
+  | Some o => from_c03 m1 (fst (fst (step_seq (to_c03 m1) (mkCall o None false))))
+  | None =>
+      if repair_transferring && existsb (st_beq (m_state m1)) is_transferring_states then
+        let s := if opt_N_eqb (m_filesize m1) (m_bytes m1) then repair_all_bytes else repair_some_bytes in
+        from_c03 m1 (apply_methods repair_methods (to_c03 (upd_state m1 s)))
+      else m1
   end.
 
-(* TransferManager.add of a transfer that is not yet listed *)
-Definition register (m : mt) : mt := upd_runtime m (m_offset m) true.
+(* TransferManager.add of a transfer that is not yet listed (fingerprinted: appends the manager to state_listeners,
+   lists the transfer, requests a management cycle) *)
+Definition register (m : mt) : mt := if repair_adds then upd_runtime m (m_offset m) true else m.
+
+(* the attributes that are pickled = the attributes __init__ creates minus _UNPICKABLE_FIELDS; these are the fields
+   of `mt` (last_*_attempt are folded into the counters) *)
+Definition modelled_persisted : list string :=
+  ["state"; "direction"; "username"; "remote_path"; "local_path"; "remotely_queued"; "place_in_queue"; "fail_reason";
+   "abort_reason"; "filesize"; "bytes_transfered"; "queue_attempts"; "last_queue_attempt"; "upload_request_attempts";
+   "last_upload_request_attempt"; "start_time"; "complete_time"]%string.
+Fixpoint strs_eqb (a b : list string) : bool :=
+  match a, b with
+  | [], [] => true
+  | x :: a', y :: b' => String.eqb x y && strs_eqb a' b'
+  | _, _ => false
+  end.
+Definition persisted_fields_b : bool :=
+  strs_eqb (filter (fun f => negb (existsb (String.eqb f) unpickable_fields)) init_fields) modelled_persisted.
 
 Definition in_progress (s : st) : bool :=
   match s with INITIALIZING | DOWNLOADING | UPLOADING => true | _ => false end.
